@@ -262,7 +262,22 @@ pub const RANGE_U: u64 = 1_000_000;
 /// (source, cfg, start, end) of a range case
 pub fn range_case(idx: u64, fx: &Fixtures) -> (String, Cfg, usize, usize) {
     let mut r = Rng::new(mix(0x7A46E, idx));
-    let (src, mut cfg) = match r.below(10) {
+    let (src, mut cfg) = match r.below(12) {
+        10 | 11 => {
+            // nested contexts: content in code, code in content, equations in both
+            let mut g = G::new(mix(0x5EED, idx));
+            let inner = g.expr(3);
+            let chain = format!("data.items.filter(it => it.{} > {}).map(it => it.price * it.count).sum()", g.ident(), g.lit());
+            let body = g.r.pick(&[
+                "#let f(d) = {\n  [\n    Total: #CHAIN more\n  ]\n}\n",
+                "#{\n  let x = [a #CHAIN b]\n  x\n}\n",
+                "$ #f([#CHAIN]) + x $\n",
+                "#f(a, [\n  #let y = EXPR\n  #CHAIN\n])\n",
+                "#let g = (a) => {\n  $ x + #(EXPR) $\n  [#EXPR]\n}\n",
+                "- item #{ let q = [#CHAIN]; q }\n  more\n",
+            ]);
+            (body.replace("CHAIN", &chain).replace("EXPR", &inner), rand_cfg(&mut g.r))
+        }
         0 | 1 => {
             let (_, s) = &fx.items[r.below(fx.items.len())];
             let s: String = if s.len() > 1500 { s.chars().take(1500).collect() } else { s.clone() };
@@ -278,8 +293,40 @@ pub fn range_case(idx: u64, fx: &Fixtures) -> (String, Cfg, usize, usize) {
         }
     };
     cfg.tab = cfg.tab.max(1);
-    cfg.width = cfg.width.min(200);
+    cfg.width = match r.below(4) {
+        0 => cfg.width.min(200),
+        1 => r.below(30),
+        _ => 20 + r.below(60),
+    };
     let bounds: Vec<usize> = (0..=src.len()).filter(|i| src.is_char_boundary(*i)).collect();
+    if r.below(2) == 0 {
+        // a range aligned to a node of the tree (possibly shrunk or grown by a character)
+        let source = Source::detached(src.clone());
+        let mut ranges = vec![];
+        fn collect(n: &LinkedNode, depth: usize, out: &mut Vec<(usize, usize, usize)>) {
+            if n.get().children().len() > 0 && n.range().len() > 0 {
+                out.push((n.range().start, n.range().end, depth));
+            }
+            for c in n.children() {
+                collect(&c, depth + 1, out);
+            }
+        }
+        collect(&LinkedNode::new(source.root()), 0, &mut ranges);
+        if !ranges.is_empty() {
+            // prefer deep nodes
+            let maxd = ranges.iter().map(|x| x.2).max().unwrap_or(0);
+            let want = r.below(maxd + 1);
+            let cands: Vec<&(usize, usize, usize)> = ranges.iter().filter(|x| x.2 >= want).collect();
+            let (mut a, mut b, _) = *cands[r.below(cands.len())];
+            match r.below(5) {
+                0 if b > a + 1 && src.is_char_boundary(a + 1) => a += 1,
+                1 if b > a + 1 && src.is_char_boundary(b - 1) => b -= 1,
+                2 if a > 0 && src.is_char_boundary(a - 1) => a -= 1,
+                _ => {}
+            }
+            return (src, cfg, a, b);
+        }
+    }
     let a = bounds[r.below(bounds.len())];
     let b = match r.below(8) {
         0 => a,
@@ -293,9 +340,11 @@ pub fn range_case(idx: u64, fx: &Fixtures) -> (String, Cfg, usize, usize) {
 
 fn range(tier: &str, seed: u64, outdir: &str) {
     let fx = Fixtures::load(&format!("{}/unit", FIXTURE_ROOT), true);
-    let n: u64 = if tier == "thorough" { 300_000 } else { 25_000 };
+    let n: u64 = if tier == "validate" { u64::MAX } else if tier == "thorough" { 300_000 } else { 25_000 };
     let mut idxs = vec![];
     crate::select("range", RANGE_U, n, seed, &mut idxs);
+    let known = crate::load_known_indices_pub("C13");
+    let validate = tier == "validate";
     std::fs::create_dir_all(outdir).unwrap();
     let nt = nthreads();
     let chunk = (idxs.len() + nt - 1) / nt;
@@ -303,6 +352,7 @@ fn range(tier: &str, seed: u64, outdir: &str) {
         let mut hs = vec![];
         for (ti, part) in idxs.chunks(chunk.max(1)).enumerate() {
             let fx = &fx;
+            let known = &known;
             let h = std::thread::Builder::new().stack_size(64 << 20).spawn_scoped(sc, move || {
                 let mut st = Stats::default();
                 let mut fails = vec![];
@@ -310,6 +360,10 @@ fn range(tier: &str, seed: u64, outdir: &str) {
                 let mut w = std::io::BufWriter::new(f);
                 for c in part {
                     let (src, cfg, a, b) = range_case(c.idx, fx);
+                    if known.contains(&("range".to_string(), c.idx, crate::case_hash(&src, cfg))) {
+                        *st.features.entry("excluded-shape:known-index".into()).or_default() += 1;
+                        continue;
+                    }
                     let source = Source::detached(src.clone());
                     st.evaluated += 1;
                     let erroneous = source.root().erroneous();
@@ -345,7 +399,7 @@ fn range(tier: &str, seed: u64, outdir: &str) {
                             fails.push(j);
                         }
                         Ok(res) => {
-                            if src.len() < 20000 {
+                            if src.len() < 20000 && !validate {
                                 let mut t = String::new();
                                 ser::ser_tree(source.root(), &mut t);
                                 writeln!(w, "CASE range {}", c.idx).unwrap();
